@@ -1254,17 +1254,22 @@ impl Machine {
                         let vs = match &*rv.borrow() {
                             UpValue::Open(i) => {
                                 let upper_base = cls.base_ptr as usize;
-                                let (_range, rawv) = self.get_open_upvalue(upper_base, *i);
-                                let rawv: &[RawVal] = unsafe { std::mem::transmute(rawv) };
-                                rawv
+                                let (range, _rawv) = self.get_open_upvalue(upper_base, *i);
+                                Err(range)
                             }
                             UpValue::Closed(rawval, _) => {
                                 let rawv: &[RawVal] =
                                     unsafe { std::mem::transmute(rawval.as_slice()) };
-                                rawv
+                                Ok(rawv)
                             }
                         };
-                        self.set_stack_range(dst as i64, vs);
+                        match vs {
+                            Ok(vs) => self.set_stack_range(dst as i64, vs),
+                            // An open upvalue lives in the stack itself. Writing the destination
+                            // may grow (reallocate) the stack, so copy by range instead of
+                            // holding a slice into it.
+                            Err(range) => self.move_stack_range(dst as i64, range),
+                        }
                     };
                 }
                 Instruction::SetUpValue(index, src, size) => {
